@@ -96,7 +96,10 @@ func (r *Rig) Setup(eps []EP) (names, urls []string, err error) {
 		name := fmt.Sprintf("k%d-%c", n, 'A'+i)
 		names = append(names, name)
 		urls = append(urls, url)
-		se = append(se, stack.Endpoint{Name: name, URL: url, Type: t, Priority: e.Priority, Preserve: e.Preserve})
+		// a per-setup health path keeps the health-check breaker (keyed by health URL) from
+		// carrying failures of an earlier case into this one
+		se = append(se, stack.Endpoint{Name: name, URL: url, Type: t, Priority: e.Priority, Preserve: e.Preserve,
+			Health: fmt.Sprintf("/k%d/verif-health", n)})
 	}
 	if err := r.S.Reload(se); err != nil {
 		return nil, nil, err
